@@ -30,7 +30,7 @@ EXHAUSTIVE_SUBDOMAINS = []
 ASSUMPTIONS = ["positions are judged only for the simulated (cleanly encoded) aircraft; noise addresses are judged for robustness, "
                "listing and the Comm-B rule only", "between 59 s and 61 s of silence neither presence nor absence is judged",
                "longitude compared modulo 360; error measured as great-circle angle"]
-REQUIRED = ["calls", "branch_ref", "branch_global", "branch_none", "evicted", "reappeared", "commb_attached", "commb_unknown_ignored",
+REQUIRED = ["calls", "transitions", "branch_ref", "branch_global", "branch_none", "evicted", "reappeared", "commb_attached", "commb_unknown_ignored",
             "surface_update", "airborne_update", "case_compare", "run_loop", "gap_lt10", "gap_10_180", "gap_gt180", "cross_antimeridian",
             "cross_equator", "cross_nl"]
 
@@ -137,6 +137,9 @@ SCEN = [
     {"name": "polar", "start": (86.0, 10.0), "trk": 45.0, "gs": 500.0},
     {"name": "surface", "start": None, "surface": True},
     {"name": "surface_eq", "start": (0.01, 100.0), "trk": 180.0, "gs": 30.0, "surface": True, "turn": 0},
+    # repeated take-offs and landings next to the receiver (or with no receiver position at all): mixed surface/airborne
+    # even/odd pairs, first contact at lift-off or touchdown
+    {"name": "transition", "start": None, "surface": True, "gs": 25.0},
 ]
 
 
@@ -178,6 +181,7 @@ def gen_history(rng, scen_name=None, window=False):
         a.t = t
     mute = {}  # addr -> silent until
     outage_until = -1.0
+    transitions = [0]
     for _ in range(n):
         c = rng.random()
         if t < outage_until:
@@ -207,9 +211,16 @@ def gen_history(rng, scen_name=None, window=False):
         if r < 0.58:
             a.advance(t)
             # take-off / landing transitions
-            if rng.random() < 0.01 and (a.surface or (rx is not None and cpr.arc_deg(a.lat, a.lon, rx[0], rx[1]) * 60 < 35)):
+            p_flip = 0.12 if a.scen == "transition" else 0.01
+            # (no surface traffic near the poles: within a few NM of a pole consecutive surface positions are more than the
+            #  45 degrees of longitude apart that the surface format can resolve - outside the premise of any decoder)
+            if rng.random() < p_flip and (a.surface or ((no_rx or (rx is not None and cpr.arc_deg(a.lat, a.lon, rx[0], rx[1]) * 60 < 35))
+                                                         and abs(a.lat) < 80)):
                 a.surface = not a.surface
-                a.gs = rng.uniform(0, 40) if a.surface else rng.uniform(120, 300)
+                a.gs = rng.uniform(0, 40) if a.surface else (rng.uniform(100, 160) if a.scen == "transition" else rng.uniform(120, 300))
+                if a.scen == "transition" and not a.surface:
+                    a.turn = 3.0   # stay in the pattern around the airfield
+                transitions[0] += 1
             m = pos_msg(rng, a)
             events.append((t, "adsb", m, a.addr, ("pos", a.lat, a.lon, a.surface, a.tainted, a.scen)))
         elif r < 0.78:
@@ -226,7 +237,7 @@ def gen_history(rng, scen_name=None, window=False):
         else:
             ad = rng.choice(commb_only)
             events.append((t, "commb", commb_msg(rng, ad), ad, ("commb_only",)))
-    return {"events": events, "rx": rx, "commb_only": commb_only}
+    return {"events": events, "rx": rx, "commb_only": commb_only, "transitions": transitions[0]}
 
 
 COMMB_FIELDS = {"tas": "tas50", "roll": "roll50", "rtrk": "rtrk50", "trk50": "trk50", "gs50": "gs50", "ias": "ias60", "hdg": "hdg60",
@@ -419,6 +430,8 @@ def m_history(ctx, case):
     gaps = [b[0] - a[0] for a, b in zip(ev, ev[1:])]
     for g in gaps:
         ctx.hit("gap_lt10" if g < 10 else "gap_10_180" if g <= 180 else "gap_gt180")
+    if hist["transitions"]:
+        ctx.hit("transitions", hist["transitions"])
     up, ok = play(ctx, hist, lower=False, judge=True)
     if not ok:
         return
